@@ -8,6 +8,7 @@
 package verifrt
 
 import (
+	"math"
 	"encoding/hex"
 	"encoding/json"
 	"fmt"
@@ -288,3 +289,18 @@ func IteU64(c bool, a, b uint64) uint64 {
 	}
 	return b
 }
+
+// HexDigit returns the ASCII hex digit of n&15 without forking the symbolic execution.
+func HexDigit(n byte, upper bool) byte {
+	if upper {
+		return "0123456789ABCDEF"[n&15]
+	}
+	return "0123456789abcdef"[n&15]
+}
+
+// AnyF64Bits is an arbitrary IEEE-754 double given by its bit pattern.
+func AnyF64Bits(name string) float64 { return math.Float64frombits(AnyU64(name)) }
+
+// IgnorePanics: panics of the code under test end the path silently in this harness (they are the
+// subject of the C19 harnesses running the same inputs).
+func IgnorePanics() {}
